@@ -158,6 +158,66 @@ def gen_case(rng, malformed=False, hist_len=None, may=False, p_unknown=0.1):
     return dict(machine=m, env=env, model=0, init=rng.randrange(ns), history=hist, cls='Machine')
 
 
+def gen_ordered_case(rng):
+    """a flat case whose event 0 is created by Machine.add_ordered_transitions with per-position option lists;
+    machine['events'][0] holds the transitions the documentation promises (states rotated so that the initial state
+    comes first, position i guards states[i] -> states[i+1], the loop-closing transition uses the LAST entry and
+    ends in the first state - or the second when loop_includes_initial is False)"""
+    g = Gen(rng, max_states=5, max_events=2)
+    m = g.machine()
+    while len(m['states']) < 2:
+        m = g.machine()
+    ns = len(m['states'])
+    all_states = [s for s, _ in m['states']]
+    if rng.random() < 0.4:
+        order, names = None, list(all_states)
+    else:
+        names = rng.sample(all_states, rng.randint(2, ns))
+        order = list(names)
+    init = rng.choice(names) if rng.random() < 0.8 else rng.choice(all_states)
+    loop = rng.random() < 0.75
+    lii = rng.random() < 0.6
+    n = len(names) if loop else len(names) - 1
+    lists = {}
+    for key, p_none in (('conditions', 0.3), ('unless', 0.4), ('before', 0.4), ('after', 0.4), ('prepare', 0.5)):
+        if rng.random() < p_none:
+            lists[key] = None
+            continue
+        lists[key] = []
+        for _ in range(n):
+            l = []
+            for _ in range(rng.choice([0, 1, 1, 2])):
+                g.cb += 1
+                l.append(g.cb)
+            lists[key].append(l)
+    if init in names:
+        k = names.index(init)
+        rot = names[k:] + names[:k]
+        first = rot[0 if lii else 1]
+    else:
+        rot, first = list(names), names[0]
+
+    def at(key, i):
+        return [] if lists[key] is None else list(lists[key][i])
+
+    def mk(i, src, dst):
+        return dict(src=src, dst=dst, prepare=at('prepare', i),
+                    conds=[(c, True) for c in at('conditions', i)] + [(c, False) for c in at('unless', i)],
+                    before=at('before', i), after=at('after', i))
+    ts = [mk(i, rot[i], rot[i + 1]) for i in range(len(rot) - 1)]
+    if loop:
+        ts.append(mk(n - 1, rot[-1], first))
+    rest = [(e, t) for e, t in m['events'] if e != 0]
+    m['events'] = [(0, ts)] + rest
+    genv = Gen(rng)
+    genv.cb = g.cb
+    env = cond_polarity_fix(m, genv.env(p_pass=0.85))
+    hist = [(rng.choice([0, 0, 2, 1]), 0 if rng.random() < 0.85 else rng.choice([e for e, _ in m['events']]), 100 + j)
+            for j in range(rng.randint(3, 9))]
+    return dict(machine=m, env=env, model=0, init=init, history=hist, cls='Machine',
+                ordered=dict(event=0, order=order, loop=loop, loop_includes_initial=lii, lists=lists))
+
+
 # ------------------------------------------------------------------ implementation runner
 def _import_transitions():
     if REPO not in sys.path:
@@ -182,13 +242,16 @@ class BaseExc(BaseException):
 # UserExn n with n >= 20 stands for a BUILT-IN exception type raised by a user callback (the library's own except
 # clauses mention some of them): the model only knows "a subclass of Exception number n"
 BUILTIN_EXC = {20: KeyError, 21: TypeError, 22: RuntimeError, 23: IndexError, 24: ZeroDivisionError, 25: LookupError,
-               26: OSError, 27: AssertionError, 28: NotImplementedError}
+               26: OSError, 27: AssertionError, 28: NotImplementedError, 29: TimeoutError, 30: ConnectionError,
+               31: ArithmeticError, 32: UnicodeError, 33: EOFError, 34: BufferError, 35: StopAsyncIteration}
 
 
 def pick_exn(k):
     """deterministic choice of what a raising callback raises: Exception / BaseException subclasses of the harness
     and built-in types (KeyError, TypeError, RuntimeError, ...)"""
-    return [(3, 1), (4, 1), (3, 20), (3, 7), (4, 5), (3, 21), (3, 22), (3, 5), (3, 23), (4, 7), (3, 25), (3, 26)][k % 12]
+    lst = [(3, 1), (4, 1), (3, 20), (3, 7), (4, 5), (3, 21), (3, 22), (3, 5), (3, 23), (4, 7), (3, 25), (3, 26), (3, 29),
+           (3, 32), (3, 30), (3, 35), (3, 31)]
+    return lst[k % len(lst)]
 
 
 STALE_SCOPE_AS_VALUEERROR = [False]     # set by the re-entrant hierarchical runner (hsm.impl_hsm_reent)
@@ -284,6 +347,16 @@ class World(object):
                 arg = [1, tok.n if ok else 999]
                 if slot in ('on_exception', 'finalize'):
                     err = None if ed.error is None else classify_exc(ed.error)
+                if slot in ('prepare', 'cond', 'unless') and getattr(ed, 'transition', None) is not None \
+                        and getattr(ed, 'state', None) is not None:
+                    # the event object describes the candidate being evaluated: its state is the source the
+                    # candidate transition is registered for (the active leaf or the ancestor that declares it),
+                    # in triggers and in may_<event> alike
+                    src = ed.transition.source
+                    sep = getattr(getattr(ed.machine, 'state_cls', None), 'separator', None)
+                    last = src.split(sep)[-1] if (sep and isinstance(src, str)) else src
+                    if last != ed.state.name:
+                        arg = [1, 997]
             else:
                 tok = args[0] if len(args) == 1 and isinstance(args[0], Token) else None
                 ok = tok is not None and set(kwargs.keys()) == {'k'} and kwargs['k'] is tok
@@ -361,7 +434,21 @@ def build_machine(case, world, cls=None, model=None, extra_kwargs=None, models=N
     if extra_kwargs:
         kw.update(extra_kwargs)
     machine = cls(**kw)
+    od = case.get('ordered')
     for e, ts in m['events']:
+        if od is not None and od['event'] == e:
+            # the transitions of this event are what add_ordered_transitions is documented to create
+            # (gen_ordered_case computed them); the library creates them from per-position option lists
+            per = od['lists']
+            slot = dict(conditions='cond', unless='unless', before='before', after='after', prepare='prepare')
+            opts = {}
+            for key, lists in per.items():
+                if lists is not None:
+                    opts[key] = [[R(slot[key], c) for c in l] for l in lists]
+            machine.add_ordered_transitions(states=None if od['order'] is None else ['s%d' % x for x in od['order']],
+                                            trigger='e%d' % e, loop=od['loop'],
+                                            loop_includes_initial=od['loop_includes_initial'], **opts)
+            continue
         for t in ts:
             machine.add_transition(
                 'e%d' % e, 's%d' % t['src'], None if t['dst'] is None else 's%d' % t['dst'],
